@@ -389,4 +389,16 @@ MEM_STATIC int ZSTD_cpuSupportsBmi2(void)
 }
 #endif
 
+/* Verification probes : measurement-only counters, compiled in only with -DZSTD_VERIF_PROBES */
+#ifdef ZSTD_VERIF_PROBES
+extern unsigned long long ZSTD_verif_probe[16];
+#  define ZSTD_VERIF_PROBE(id) ((void)__atomic_fetch_add(&ZSTD_verif_probe[(id)], 1ULL, __ATOMIC_RELAXED))
+#else
+#  define ZSTD_VERIF_PROBE(id) ((void)0)
+#endif
+#define ZSTD_VERIF_PROBE_OVERFLOW_CORRECTION 0
+#define ZSTD_VERIF_PROBE_DICT_INVALIDATED    1
+#define ZSTD_VERIF_PROBE_MT_JOB_CREATED      2
+#define ZSTD_VERIF_PROBE_MT_JOB_TABLE_FULL   3
+
 #endif   /* ZSTD_CCOMMON_H_MODULE */
